@@ -221,7 +221,7 @@ func (g *gen) fill(t *sType) {
 				} else if g.r.Chance(1, 5) {
 					f.Text += "?"
 				}
-			case k < 90:
+			case k < 86:
 				var cands []*sType
 				for _, c := range g.all {
 					if c.Kind == "table" {
@@ -237,13 +237,22 @@ func (g *gen) fill(t *sType) {
 				}
 				prev = tg
 				f.Text = g.refText(t.app, tg) + ".c0"
-			case k < 92:
+			case k < 88:
 				f.Text = g.pick(appPool[:2]) + ".Missing.c0"
-			case k < 94:
+			case k < 90:
 				f.Text = "Nope.c0" // parsed as application Nope + one-element path
 			default:
+				// (second pass: 6 % -> 10 % of the columns, list columns, repeated element type)
 				tg := g.all[g.r.Intn(len(g.all))]
-				f.Text = g.pick([]string{"set of ", "sequence of "}) + g.pick([]string{"int", g.refText(t.app, tg)})
+				if prev != nil && g.r.Chance(1, 3) {
+					tg = prev
+				}
+				el := g.pick([]string{"int", g.refText(t.app, tg), g.refText(t.app, tg)})
+				if g.r.Chance(1, 4) {
+					f.Text, f.Arr = el, true
+				} else {
+					f.Text = g.pick([]string{"set of ", "sequence of "}) + el
+				}
 			}
 			t.Fields = append(t.Fields, f)
 		}
@@ -399,6 +408,15 @@ var corpus = []struct {
 	{"project-without-epname", "", "App1:\n    !type A:\n        f0 <: int\nApp2:\n    !type B:\n        f0 <: App1.A\n", &wspec{Output: "all.png", Project: projectApp, Endpoints: []wEndpoint{{"V1", []string{"App1"}}, {"V2", []string{"App2"}}}}},
 	{"project-not-found", "", "App1:\n    !type A:\n        f0 <: int\n", &wspec{Output: "%(epname).png", Project: "NoSuchProject"}},
 	{"project-filter", "", "App1:\n    !type A:\n        f0 <: int\nApp2:\n    !type B:\n        f0 <: App1.A\n", &wspec{Output: "%(epname).png", Project: projectApp, Filter: "V2", Endpoints: []wEndpoint{{"V1", []string{"App1"}}, {"V2", []string{"App2"}}}, Key: "V2.png"}},
+	// round 3, second pass: the shapes of the repaired findings
+	{"table-collection-columns-related", "", "App1:\n    !table T:\n        c0 <: int [~pk]\n        c1 <: set of U\n        c2 <: sequence of App2.V\n        c3 <: set of U\n        c4 <: set of Outer.Inner\n        c5 <: sequence of Outer%2EInner\n        c6(1..3) <: U\n        c7 <: set of string\n    !table U:\n        c0 <: int [~pk]\n    !type Outer:\n        f0 <: int\n        !type Inner:\n            f0 <: int\nApp2:\n    !table V:\n        c0 <: int [~pk]\n", nil},
+	{"nested-table-key-three-levels", "", "App1:\n    !table X:\n        c0 <: int [~pk]\n        !table T:\n            c0 <: int [~pk]\n            !table V:\n                c0 <: int [~pk]\n    !table R:\n        c0 <: int [~pk]\n        c1 <: X.T.V.c0\n        c2 <: X.T.c0\n        c3 <: App1.X.T.V.c0\n        c4 <: X.c0\nApp2:\n    !table S:\n        c0 <: int [~pk]\n        c1 <: App1.X.T.c0\n", nil},
+	{"nested-names-in-tuples-whole-path", "", "App1:\n    !type A:\n        f0 <: Outer.Inner\n        f1 <: App1.Outer.Inner\n        f2 <: Outer.Inner.Deep\n        f3 <: Outer.Nope\n        f4 <: Outer.Inner\n    !type Outer:\n        f0 <: int\n        !type Inner:\n            f0 <: Outer\n            !type Deep:\n                f0 <: Outer.Inner\nApp2:\n    !type B:\n        f0 <: App1.Outer.Inner.Deep\n        f1 <: App1.Outer.Missing\n", nil},
+	{"dotted-app-table-local-key", "", "App:\n    !table T:\n        c0 <: int [~pk]\nApp%2E2:\n    !table T:\n        c0 <: int [~pk]\n        c1 <: T.c0\n    !table U:\n        c0 <: int [~pk]\n        c1 <: T.c0\n        c2 <: App.T.c0\n", nil},
+	{"dotted-app-table-local-key-view", "App.2", "App:\n    !table T:\n        c0 <: int [~pk]\nApp%2E2:\n    !table T:\n        c0 <: int [~pk]\n        c1 <: T.c0\n    !table U:\n        c0 <: int [~pk]\n        c1 <: T.c0\n        c2 <: App.T.c0\n", nil},
+	{"project-endpoint-three-apps", "", "App1:\n    !type A:\n        f0 <: App3.C\nApp2:\n    !type B:\n        f0 <: App1.A\nApp3:\n    !type C:\n        f0 <: App2.B\nApp4:\n    !type D:\n        f0 <: App1.A\n", &wspec{Output: "%(epname).png", Project: projectApp, Endpoints: []wEndpoint{{"V1", []string{"App3", "Nope", "App1", "return ok", "App2"}}, {"V2", []string{"App4", "App4"}}}, Key: "V1.png"}},
+	{"bare-lookup-in-collection", "", "App1:\n    !type A:\n        f0 <: set of App2%2EY\n        f1 <: App2%2EY\n        f2 <: App2.Y\nApp2:\n    !type Y:\n        f0 <: int\n", nil},
+	{"mermaid-foreign-keys-and-any", "", "App1:\n    !table T:\n        c0 <: int [~pk]\n        c1 <: App2.U.c0\n        c2 <: V.c0\n        c3 <: any\n        c4 <: V.c0\n    !table V:\n        c0 <: int [~pk]\n    !type W:\n        f0 <: any\n        f1 <: set of any\n        f2 <: V\n        f3 <: set of V\nApp2:\n    !table U:\n        c0 <: int [~pk]\nNs :: App3:\n    !table A:\n        c0 <: int [~pk]\n    !table B:\n        c0 <: int [~pk]\n        c1 <: A.c0\n        c2 <: App1.T.c0\n", nil},
 	{"direct-epname-class-format-title", "", "App1:\n    !type A:\n        f0 <: int\nApp2:\n    !type B:\n        f0 <: App1.A\n", &wspec{Direct: true, Output: "%(epname).png", ClassFormat: "[%(classname)]", Title: "T", Key: "App2.png"}},
 }
 
@@ -722,7 +740,7 @@ func labelOK(owner *cType, ri refInfo, label string) bool {
 		if s == p || s == app+"."+p {
 			return true
 		}
-		if owner.kind == "table" && len(ri.path) >= 2 { // Table.column: the column may be left out
+		if owner.kind == "table" && ri.wrap == "" && len(ri.path) >= 2 { // Table.column: the column may be left out
 			p = strings.Join(ri.path[:len(ri.path)-1], ".")
 			return s == p || s == app+"."+p
 		}
@@ -752,10 +770,10 @@ func labelOK(owner *cType, ri refInfo, label string) bool {
 // application part of one element that names no application with such a type, but a type of the current application,
 // is a deep local reference (pkg/parse fixTypeRefScope - which the parser applies to direct references only);
 // otherwise the application of the reference or the current one, then the whole path (a table's foreign key
-// Table.column: without the column)
+// Table.column: without the column; the element of a set / sequence / list column of a table is a type: whole path)
 func resolveRef(existing map[string]*cType, ct *cType, ri refInfo) (full string, tp []string, why string) {
 	tp = ri.path
-	if ct.kind == "table" && len(tp) >= 2 {
+	if ct.kind == "table" && ri.wrap == "" && len(tp) >= 2 { // (the element of a collection column is a type, not Table.column)
 		tp = tp[:len(tp)-1]
 	}
 	why = "plain"
@@ -984,6 +1002,7 @@ func judge(c *common.Ctx, m *sysl.Module, cov *coverT, text string, replay inter
 		}
 		exp := map[string]int{}
 		why := map[string]string{}
+		expBy := map[string]map[string]int{} // target -> class of the referring field -> number of fields
 		tolerated, hasNested, danglingTableRef, bareHit, dottedTable := 0, false, false, false, false
 		for _, ft := range attrsOf(ct.t) {
 			ri := fieldInfo(ft)
@@ -1012,11 +1031,13 @@ func judge(c *common.Ctx, m *sysl.Module, cov *coverT, text string, replay inter
 			exp[full]++
 			r := rwhy
 			switch {
-			case ct.kind == "table" && strings.Contains(ct.app, ".") && ri.app == "":
-				r = "table-in-app-name-with-dot" // DrawRelation takes the first '.'-chunk of the name for the application
-				dottedTable = true
 			case tgt.kind == "prim":
 				r = "to-primitive-alias"
+			case r == "inplace-tuple" || r == "nested-path-in-collection":
+				// the class of the reference itself (how the compiler scopes it) comes before the class of its owner
+			case ct.kind == "table" && strings.Contains(ct.app, ".") && ri.app == "":
+				r = "table-in-app-name-with-dot" // DrawRelation took the first '.'-chunk of the name for the application
+				dottedTable = true
 			case ct.kind == "table" && ri.wrap != "":
 				r = "table-collection"
 			case r == "plain" && len(tp) > 1:
@@ -1025,6 +1046,10 @@ func judge(c *common.Ctx, m *sysl.Module, cov *coverT, text string, replay inter
 			if why[full] == "" || why[full] == "plain" {
 				why[full] = r
 			}
+			if expBy[full] == nil {
+				expBy[full] = map[string]int{}
+			}
+			expBy[full][r]++
 		}
 		obs := map[string]int{}
 		dangling := 0
@@ -1041,10 +1066,24 @@ func judge(c *common.Ctx, m *sysl.Module, cov *coverT, text string, replay inter
 		missingPrim := 0
 		for full, n := range exp {
 			if obs[full] < n {
-				if why[full] == "to-primitive-alias" {
-					missingPrim += n - obs[full]
+				// which fields lost their line cannot be seen from the counts: the missing lines are charged to the
+				// classes of the referring fields in a fixed order, each class up to the number of its fields - a
+				// deficit larger than the fields of the listed classes reaches "nested-path" / "plain"
+				deficit := n - obs[full]
+				for _, cls := range []string{"to-primitive-alias", "inplace-tuple", "nested-path-in-collection", "table-in-app-name-with-dot", "table-collection", "nested-path", "plain"} {
+					take := expBy[full][cls]
+					if take > deficit {
+						take = deficit
+					}
+					if take == 0 {
+						continue
+					}
+					deficit -= take
+					if cls == "to-primitive-alias" {
+						missingPrim += take
+					}
+					j.fail("edge-missing:"+cls, fmt.Sprintf("%s.%s has %d field(s) referring to %s but %d relationship line(s) (%d of them of class %s)", ct.app, ct.name, n, full, obs[full], expBy[full][cls], cls))
 				}
-				j.fail("edge-missing:"+why[full], fmt.Sprintf("%s.%s has %d field(s) referring to %s but %d relationship line(s)", ct.app, ct.name, n, full, obs[full]))
 			}
 		}
 		for full, n := range obs {
@@ -1359,8 +1398,10 @@ func genSpec(r *common.Rng, apps []*sApp) *wspec {
 			switch {
 			case k < 55:
 				e.Stmts = []string{pick()}
-			case k < 75:
+			case k < 68:
 				e.Stmts = []string{pick(), pick()}
+			case k < 75:
+				e.Stmts = []string{pick(), "return ok", pick(), pick()}
 			case k < 85:
 				e.Stmts = []string{"return ok", "Nope", pick()}
 			case k < 93:
@@ -1462,6 +1503,8 @@ Definition WA (n:list positive) (o:positive) := {| w_name := n; w_out := o |}.
 Definition WE (o:positive) (m:bool) (st:list wstmt) := {| ep_out := o; ep_match := m; ep_stmts := st |}.`
 	footer := `Definition M := Eval vm_compute in mismatches c15_ok cases. Print M.`
 	cs := c.NewCases("C15", header, "c15_case", footer, 60)
+	// goal 3: the Mermaid data-model view of the same module (mermaid.go)
+	mcs := c.NewCases("C15M", mermaidHeader, "mm_case", `Definition M := Eval vm_compute in mismatches mm_ok cases. Print M.`, 120)
 	syslBin := os.Getenv("VERIF_SYSL_BIN")
 	cliLeft := 10
 	if c.Thorough() {
@@ -1478,6 +1521,9 @@ Definition WE (o:positive) (m:bool) (st:list wstmt) := {| ep_out := o; ep_match 
 			c.Hist("parse-error")
 			c.Res.Notes = append(c.Res.Notes, "generated text did not compile ("+name+"): "+err.Error())
 			return
+		}
+		if toCoq {
+			mermaidOne(c, mcs, m, replayT{Name: name + " (Mermaid view: GenerateFullDataDiagram)", Text: text + projectText(w)})
 		}
 		o := runReal(m, w)
 		exp, found := expected(m, w)
@@ -1700,6 +1746,7 @@ Definition WE (o:positive) (m:bool) (st:list wstmt) := {| ep_out := o; ep_match 
 		}
 		one(rp.Name, rp.Text, w, rp.Filter, true)
 		cs.Close()
+		mcs.Close()
 		m, err := compile(rp.Text, w)
 		if err != nil {
 			fmt.Println("parse error:", err)
@@ -1742,6 +1789,7 @@ Definition WE (o:positive) (m:bool) (st:list wstmt) := {| ep_out := o; ep_match 
 		one(fmt.Sprintf("gen:%d", i), text, genSpec(r, apps), "", true)
 	}
 	cs.Close()
+	mcs.Close()
 }
 
 // `sysl datamodel` itself: written files = entries of the map (each followed by a newline)
